@@ -133,6 +133,7 @@ void run_one(const json &line) {
     auto &T = vh::T();
     const json &p = line["p"];
     T.line("{\"e\":\"Prog\",\"p\":" + p.dump() + "}");
+    T.flush();
     {
         Exec X;
         build(X, p);
@@ -146,6 +147,7 @@ void run_one(const json &line) {
             q += "]";
             T.line("{\"e\":\"Call\",\"c\":[" + std::to_string(op) + "," + std::to_string(e) + "],\"ret\":" + std::to_string(ret) +
                    ",\"out\":[" + X.out + "],\"q\":" + q + "}");
+            T.flush();   // a sanitizer exit must not leave a half-written line behind (the trace stays parseable)
         }
     }   // machines destroyed here (parents and nested ones, in reverse index order)
     T.line("{\"e\":\"Reset\"}");
